@@ -80,6 +80,10 @@ fn run(input: RunInput) -> ScenFuture {
         // with or without a user-supplied outbound request layer
         let mut spec_c = w.spec_exact(1, cfg_c);
         spec_c.user_outbound_layer = w.flag("caller_has_user_outbound_layer", 0.4);
+        // ... which may hold requests back (a throttle): the time spent there counts against the
+        // caller's deadline like any other
+        let hold_us = if spec_c.user_outbound_layer && w.flag("user_layer_holds_requests_back", 0.5) { w.param("user_layer_hold_ms", 1, 400) as u64 * 1000 } else { 0 };
+        spec_c.user_outbound_delay = Duration::from_micros(hold_us);
         let client = w.start_node(spec_c, Svc::echo(&w)).unwrap();
         if client.net.connect_with_peer_id(server.addr, server.peer_id).await.is_err() {
             w.harness_error("setup connect failed");
@@ -91,6 +95,7 @@ fn run(input: RunInput) -> ScenFuture {
         let (lmin, lmax) = (lat_min_us * 1000, lat_max_us * 1000);
         let margin = if constant { 3 * MS } else { 3 * lmax + 30 * MS };
         let mut r = w.rng("wl:calls");
+        let mut retired_raw = Vec::new();
         let mut cut = 0u64;
         let mut skipped = 0u64;
         let mut samples = Vec::new();
@@ -146,8 +151,8 @@ fn run(input: RunInput) -> ScenFuture {
             // ---- caller side ----
             // the response (success or RequestTimeout) would arrive at s + min(h, ds) + L
             let serve_ns = ds.map(|d| d.min(h_ns)).unwrap_or(h_ns);
-            let earliest_resp = t0 + lmin + serve_ns + lmin;
-            let latest_resp = t0 + lmax + serve_ns + lmax;
+            let earliest_resp = t0 + hold_us * 1000 + lmin + serve_ns + lmin;
+            let latest_resp = t0 + hold_us * 1000 + lmax + serve_ns + lmax;
             let caller_deadline = dc.map(|d| t0.saturating_add(d));
             let expect_caller = match caller_deadline {
                 Some(cd) if cd.saturating_add(margin) < earliest_resp => Some("timeout-error"),
@@ -218,6 +223,87 @@ fn run(input: RunInput) -> ScenFuture {
                 }
             }
         }
+        // ---- a caller that does not enforce anything itself (a raw QUIC peer speaking anemo's
+        //      wire format): whatever deadline applies is the serving side's doing alone - its
+        //      default, the header, or the smaller of the two ----
+        if w.flag("raw_caller_phase", 0.4) && !w.violated() {
+            use crate::adversary::{adv_endpoint, gen_cert, AdvSpec};
+            use crate::model::wire;
+            let k_raw = w.key_for(9);
+            let raw = adv_endpoint(&w, AdvSpec {
+                idx: 9, port: 7000, chain: vec![gen_cert(&k_raw, "sim")], sign_key: k_raw, present_client_cert: true,
+                idle_ms: 60_000, keep_alive_ms: Some(5_000), max_bidi: 100,
+            });
+            match raw.dial(server.addr, "sim", 5_000).await {
+                Err(e) => w.harness_error(&format!("raw caller could not connect: {e}")),
+                Ok(conn) => {
+                    sleep_ms(100).await;
+                    for k in 0..w.param("raw_calls", 1, 4) as u64 {
+                        let nonce = 5_000 + k;
+                        let h_us: u64 = match r.gen_range(0..3) {
+                            0 => r.gen_range(0..20_000),
+                            _ => r.gen_range(0..4_000_000),
+                        };
+                        let (hdr, class) = header_value(&mut r, d_in, None, h_us / 1000);
+                        let ds = deadline_ns(d_in.map(|d| d * MS), hdr.as_deref());
+                        let mut hdrs = vec![("x-nonce".to_string(), nonce.to_string()), ("x-delay-us".to_string(), h_us.to_string())];
+                        if let Some(v) = &hdr {
+                            hdrs.push(("timeout".to_string(), v.clone()));
+                        }
+                        let Ok(Ok((mut tx, mut rx))) = tokio::time::timeout(Duration::from_secs(5), conn.open_bi()).await else {
+                            w.harness_error("raw caller could not open a stream");
+                            break;
+                        };
+                        let _ = tx.write_all(&wire::encode_request(1, "/raw", &hdrs, b"raw")).await;
+                        let _ = tx.finish();
+                        let resp = tokio::time::timeout(Duration::from_micros(h_us + 10_000_000), rx.read_to_end(1 << 16)).await;
+                        let status = match &resp {
+                            Ok(Ok(b)) => wire::decode_response(b).ok().and_then(|d| d.status),
+                            _ => None,
+                        };
+                        sleep_us(2 * lat_max_us + 3000).await;
+                        let seen = h.seen().into_iter().find(|s| s.nonce == Some(nonce));
+                        let key = format!("hdr={class} in={}", d_in.is_some());
+                        let h_ns = h_us * 1000;
+                        w.event(format!("raw {class}:{status:?}"));
+                        let Some(sn) = seen else {
+                            w.violate("raw-request-not-served", key, format!("raw call {k}: the handler never saw it (status {status:?})"));
+                            break;
+                        };
+                        match ds {
+                            Some(d) if d.saturating_add(margin) < h_ns => {
+                                cut += 1;
+                                if status != Some(408) {
+                                    w.violate("server-deadline-not-enforced", key.clone(), format!("raw call {k}: header {hdr:?}, inbound default {d_in:?} ms, handler {h_us} us: the serving side must answer RequestTimeout, the raw caller got {status:?}"));
+                                }
+                                match sn.dropped_at_ns {
+                                    None => w.violate("handler-not-cut-off", key.clone(), format!("raw call {k}: handler needing {h_us} us was not dropped although the server-side deadline is {} us (header {hdr:?})", d / 1000)),
+                                    Some(t) => {
+                                        let at = sn.at_ns.saturating_add(d);
+                                        if t < at || t > at + 2 * MS {
+                                            w.violate("handler-dropped-at-wrong-instant", key.clone(), format!("raw call {k}: handler dropped {} us after its start, model server deadline {} us", (t - sn.at_ns) / 1000, d / 1000));
+                                        }
+                                    }
+                                }
+                            }
+                            Some(d) if h_ns.saturating_add(margin) >= d => skipped += 1,
+                            _ => {
+                                if status != Some(200) || sn.completed_at_ns.is_none() {
+                                    w.violate("server-cut-off-early", key.clone(), format!("raw call {k}: header {hdr:?}, inbound default {d_in:?} ms, handler {h_us} us: no deadline applies before completion, yet status {status:?}, handler completed = {}", sn.completed_at_ns.is_some()));
+                                }
+                            }
+                        }
+                        if w.violated() {
+                            break;
+                        }
+                    }
+                    w.probe("raw-caller-phase");
+                    conn.close(0u32.into(), b"");
+                    sleep_us(2 * lat_max_us + 3000).await;
+                }
+            }
+            retired_raw.push(raw);
+        }
         // ---- the wait for a stream counts: with the server's stream budget taken by slow
         //      requests, a further request with a short timeout header fails at its deadline ----
         let occupancy_ms = d_out.unwrap_or(u64::MAX).min(d_in.unwrap_or(u64::MAX)).min(3_000);
@@ -257,7 +343,7 @@ fn run(input: RunInput) -> ScenFuture {
         if cut > 0 { w.mark_overlap(); }
         w.sample("calls", json!({"inbound_default_ms": d_in, "outbound_default_ms": d_out, "latency_us": [lat_min_us, lat_max_us], "calls": samples}));
         let out = w.finish();
-        drop((client, server, server2));
+        drop((client, server, server2, retired_raw));
         out
     })
 }
